@@ -6,7 +6,7 @@
 SPECIFICATION Spec
 CONSTANTS
   Variant = "intended"
-  Kinds = {"mft", "mftn", "ta", "tah", "notify", "notify1"}
+  Kinds = {"mft", "mftn", "mftr", "ta", "tah", "notify", "notify1"}
   Mode = "all"
   HostsR = {"h.test", "g.test"}
   HostsH = {"h.test", "..", ""}
